@@ -21,6 +21,7 @@ pub struct Run {
     pub samples: Vec<String>,
     pub oracle_checks: u64,
     pub notes: Vec<String>,
+    pub descs: Vec<String>,
 }
 
 impl Run {
@@ -35,6 +36,7 @@ impl Run {
             samples: Vec::new(),
             oracle_checks: 0,
             notes: Vec::new(),
+            descs: Vec::new(),
         }
     }
 
@@ -47,6 +49,13 @@ impl Run {
         self.cases.push(line);
         self.impl_out.push(impl_answer);
         self.tags.insert(tag);
+    }
+
+    /// like `case`, with a human-readable description (SQL text, input) used when the model's spec answer disagrees
+    pub fn case_with_desc(&mut self, line: String, impl_answer: String, tag: String, desc: String) {
+        while self.descs.len() < self.cases.len() { self.descs.push(String::new()); }
+        self.descs.push(desc.replace('\n', "\\n"));
+        self.case(line, impl_answer, tag);
     }
 
     pub fn count(&mut self, key: &str) {
@@ -66,6 +75,9 @@ impl Run {
         f.flush()?;
         let mut f = std::io::BufWriter::new(std::fs::File::create(format!("{}/impl.txt", dir))?);
         for c in &self.impl_out { writeln!(f, "{}", c)?; }
+        f.flush()?;
+        let mut f = std::io::BufWriter::new(std::fs::File::create(format!("{}/descs.txt", dir))?);
+        for i in 0..self.cases.len() { writeln!(f, "{}", self.descs.get(i).map(|s| s.as_str()).unwrap_or(""))?; }
         f.flush()?;
         let mut f = std::io::BufWriter::new(std::fs::File::create(format!("{}/meta.json", dir))?);
         writeln!(f, "{{")?;
